@@ -5,9 +5,11 @@ package verifharness
 // segment reference model (DESIGN §3.5).
 
 import (
+	"bytes"
 	"fmt"
 	"io"
 	"strconv"
+	"sync"
 	"unicode/utf8"
 
 	"github.com/cockroachdb/redact"
@@ -117,6 +119,95 @@ func (t *mbTarget) ioWriteRune(r rune)        { t.unsafe(); t.b.WriteRune(r) }
 func (t *mbTarget) buf() *redact.ManualBuffer { return t.b }
 func (t *mbTarget) state() (fmt.State, rune)  { return nil, 0 }
 
+// ---- operand ledger ---------------------------------------------------------
+//
+// The byte slices handed to the library stay the caller's (io.Writer: "Write
+// must not modify the slice data, even temporarily. Implementations must not
+// retain p."). Each slice lent by a history is compared with its content
+// when the call returns; while a check has the ledger on it is then
+// overwritten (a retained alias would change the destination's content,
+// which the model oracle sees) and compared again when the history ends (a
+// retained alias that the library writes through would change it).
+
+type ledgerEntry struct {
+	what       string
+	live, want []byte
+}
+
+var ledger struct {
+	sync.Mutex
+	on      bool
+	entries []ledgerEntry
+	fault   error
+}
+
+func ledgerStart() {
+	ledger.Lock()
+	ledger.on, ledger.entries, ledger.fault = true, nil, nil
+	ledger.Unlock()
+}
+
+// ledgerVerify ends the ledger period and reports the first fault.
+func ledgerVerify() error {
+	ledger.Lock()
+	defer ledger.Unlock()
+	err := ledger.fault
+	for _, e := range ledger.entries {
+		if err == nil && !bytes.Equal(e.live, e.want) {
+			err = fmt.Errorf("the caller's slice passed to %s was %s after the call and is %s after later calls: the library kept it and wrote through it", e.what, q(e.want), q(e.live))
+		}
+	}
+	ledger.on, ledger.entries, ledger.fault = false, nil, nil
+	return err
+}
+
+// lent is called when the call that received b (a fresh slice holding
+// orig) has returned.
+func lent(what string, b []byte, orig string) {
+	ledger.Lock()
+	defer ledger.Unlock()
+	if !ledger.on {
+		return
+	}
+	if string(b) != orig {
+		if ledger.fault == nil {
+			ledger.fault = fmt.Errorf("%s modified its caller's slice: %s became %s", what, qs(orig), q(b))
+		}
+		return
+	}
+	// the caller reuses its slice
+	for i := range b {
+		b[i] = '#'
+	}
+	ledger.entries = append(ledger.entries, ledgerEntry{what, b, append([]byte(nil), b...)})
+}
+
+// lentArgs records the byte-slice operands of a print call (they are
+// shared with other routes, so they are only compared, not overwritten).
+func lentArgs(what string, args []interface{}) {
+	ledger.Lock()
+	defer ledger.Unlock()
+	if !ledger.on {
+		return
+	}
+	for _, a := range args {
+		var b []byte
+		switch x := a.(type) {
+		case redact.RedactableBytes:
+			b = x
+		case []byte:
+			b = x
+		case ri.SafeBytes:
+			b = x
+		case NBytes:
+			b = x
+		}
+		if len(b) > 0 {
+			ledger.entries = append(ledger.entries, ledgerEntry{what + " operand", b, append([]byte(nil), b...)})
+		}
+	}
+}
+
 // observer receives the results of accessor ops.
 type observer func(i int, op *Op, result interface{})
 
@@ -156,7 +247,9 @@ func runCompiledOp(t target, i int, c *compiled, inst int, obs observer) {
 	case "SafeByte":
 		t.SafeByte(ri.SafeByte(byte(op.int(inst))))
 	case "SafeBytes":
-		t.SafeBytes(ri.SafeBytes(op.str(inst)))
+		b := []byte(op.str(inst))
+		t.SafeBytes(ri.SafeBytes(b))
+		lent("SafeBytes", b, op.str(inst))
 	case "UnsafeString":
 		t.UnsafeString(op.str(inst))
 	case "UnsafeRune":
@@ -164,13 +257,19 @@ func runCompiledOp(t target, i int, c *compiled, inst int, obs observer) {
 	case "UnsafeByte":
 		t.UnsafeByte(byte(op.int(inst)))
 	case "UnsafeBytes":
-		t.UnsafeBytes([]byte(op.str(inst)))
+		b := []byte(op.str(inst))
+		t.UnsafeBytes(b)
+		lent("UnsafeBytes", b, op.str(inst))
 	case "Print":
+		lentArgs("Print", c.args)
 		t.Print(c.args...)
 	case "Printf":
+		lentArgs("Printf", c.args)
 		t.Printf(op.str(inst), c.args...)
 	case "Write":
-		t.ioWrite([]byte(op.str(inst)))
+		b := []byte(op.str(inst))
+		t.ioWrite(b)
+		lent("Write", b, op.str(inst))
 	case "WriteString":
 		t.ioWriteString(op.str(inst))
 	case "WriteByte":
@@ -201,7 +300,9 @@ func runCompiledOp(t target, i int, c *compiled, inst int, obs observer) {
 		}
 	case "MBWrite":
 		if b := t.buf(); b != nil {
-			b.Write([]byte(op.str(inst)))
+			p := []byte(op.str(inst))
+			b.Write(p)
+			lent("Buffer.Write", p, op.str(inst))
 		}
 	case "MBWriteString":
 		if b := t.buf(); b != nil {
